@@ -873,3 +873,174 @@ Section FilterProofs.
       cbn [app]. rewrite term_writes_app, term_writes_clips. reflexivity.
   Qed.
 End FilterProofs.
+
+(* ------------------------------------------------------------------------------------ *)
+(* OSC52 is inert: switching the option on or off, and whatever partial sequence is        *)
+(* buffered, changes nothing but the clipboard calls and the buffer itself                 *)
+
+Definition opts_but_osc52 (o : opts) (v : bool) : opts :=
+  {| o_drag := o_drag o; o_trace := o_trace o; o_zmodem := o_zmodem o; o_osc52 := v;
+     o_cmd := o_cmd o; o_cmd_not_trz := o_cmd_not_trz o |}.
+
+Definition no_clip (l : list obs) : list obs :=
+  filter (fun x => match x with Clip _ => false | _ => true end) l.
+
+Lemma no_clip_app : forall a b, no_clip (a ++ b) = no_clip a ++ no_clip b.
+Proof. intros; unfold no_clip; apply filter_app. Qed.
+Lemma no_clip_clips : forall cl, no_clip (map Clip cl) = [].
+Proof. induction cl; cbn; auto. Qed.
+
+Section OscInert.
+  Variable dstate : Type.
+  Variable trigger : Type.
+  Variable detect : dstate -> list N -> (list N * option trigger) * dstate.
+  Variable trig_prompts : trigger -> bool.
+  Variable zmodem_detect : list N -> bool.
+  Variable zstate : Type.
+  Variable zm_init : list N -> zstate.
+  Variable zm_handle : zstate -> list N -> bool * zstate.
+  Variable zm_busy : zstate -> bool.
+  Variable zm_stop : zstate -> zstate.
+  Variable drag_detect : list N -> dres.
+  Variable msg_on msg_off : list N.
+  Variable is_stop_key : list N -> bool.
+
+  Notation state := (state dstate zstate).
+  Notation step := (step dstate trigger detect trig_prompts zmodem_detect zstate zm_init zm_handle zm_busy zm_stop drag_detect msg_on msg_off is_stop_key).
+  Notation run := (run dstate trigger detect trig_prompts zmodem_detect zstate zm_init zm_handle zm_busy zm_stop drag_detect msg_on msg_off is_stop_key).
+
+  (* equal up to the OSC52 buffer *)
+  Definition osc_eq (a b : state) : Prop := set_osc None a = set_osc None b.
+
+  Lemma osc_eq_refl : forall a, osc_eq a a. Proof. reflexivity. Qed.
+
+  Lemma osc_eq_set : forall a b, osc_eq a b -> exists q, b = set_osc q a.
+  Proof.
+    intros a b E. exists (osc b). unfold osc_eq in E. destruct a, b; cbn in *. inversion E; subst. reflexivity.
+  Qed.
+
+  Ltac bm :=
+    match goal with
+    | |- context [match ?x with _ => _ end] => destruct x
+    | |- context [if ?x then _ else _] => destruct x
+    end.
+  Ltac unf_sets :=
+    unfold set_transfer, set_zmodem, set_prompt, set_prompts, set_trace_on, set_interrupting, set_skip_cmd,
+      set_cur_cmd, set_osc, set_detect_on, set_drag, set_held, set_det, set_drag_procs, set_handlers in *.
+
+  Lemma out_forward_osc : forall o1 o2 (a b : state) pa pb c, o_zmodem o1 = o_zmodem o2 ->
+    osc_eq a b -> no_clip pa = no_clip pb ->
+    osc_eq (fst (out_forward dstate zmodem_detect zstate zm_init o1 a pa c))
+           (fst (out_forward dstate zmodem_detect zstate zm_init o2 b pb c)) /\
+    no_clip (snd (out_forward dstate zmodem_detect zstate zm_init o1 a pa c)) =
+    no_clip (snd (out_forward dstate zmodem_detect zstate zm_init o2 b pb c)).
+  Proof.
+    intros o1 o2 a b pa pb c Eo E P.
+    assert (E' : set_osc None a = set_osc None b) by exact E.
+    destruct a, b; cbn in E'; inversion E'; subst; clear E' E.
+    unfold Filter.out_forward. rewrite Eo. unf_sets. cbn -[osc_eq no_clip].
+    destruct interrupting0; [split; [reflexivity|exact P]|].
+    destruct skip_cmd0; cbn -[osc_eq no_clip].
+    all: repeat (bm; cbn -[osc_eq no_clip]); rewrite ?no_clip_app, ?P; split; reflexivity.
+  Qed.
+
+  Notation out_step := (out_step dstate trigger detect trig_prompts zmodem_detect zstate zm_init zm_handle msg_on msg_off).
+
+  (* the output pump: the only reader of the buffer *)
+  Lemma out_step_osc : forall o v1 v2 (a b : state) c, osc_eq a b ->
+    osc_eq (fst (out_step (opts_but_osc52 o v1) a c)) (fst (out_step (opts_but_osc52 o v2) b c)) /\
+    no_clip (snd (out_step (opts_but_osc52 o v1) a c)) = no_clip (snd (out_step (opts_but_osc52 o v2) b c)).
+  Proof.
+    intros o v1 v2 a b c E.
+    - unfold Filter.out_step.
+      assert (Et : transfer a = transfer b) by (unfold osc_eq in E; destruct a, b; cbn in *; inversion E; auto).
+      rewrite Et. destruct (transfer b); [cbn; auto|].
+      (* trace logger *)
+      assert (T : fst (trace_log dstate zstate msg_on msg_off (opts_but_osc52 o v1) a c) =
+                  fst (trace_log dstate zstate msg_on msg_off (opts_but_osc52 o v2) b c) /\
+                  osc_eq (snd (trace_log dstate zstate msg_on msg_off (opts_but_osc52 o v1) a c))
+                         (snd (trace_log dstate zstate msg_on msg_off (opts_but_osc52 o v2) b c))).
+      { assert (E' : set_osc None a = set_osc None b) by exact E.
+        unfold Filter.trace_log. destruct a, b; cbn in E'; inversion E'; subst; unf_sets; cbn -[osc_eq].
+        destruct (o_trace o); [|split; reflexivity].
+        destruct trace_on0; [destruct (contains trace_disable_marker c)|destruct (contains trace_enable_marker c)];
+          split; reflexivity. }
+      destruct (trace_log dstate zstate msg_on msg_off (opts_but_osc52 o v1) a c) as [b1 a1].
+      destruct (trace_log dstate zstate msg_on msg_off (opts_but_osc52 o v2) b c) as [b2 a2].
+      cbn [fst snd] in T. destruct T as (Tb & Ta). subst b2.
+      (* zmodem session *)
+      assert (Z : match out_zmodem dstate zstate zm_handle (opts_but_osc52 o v1) a1 b1,
+                        out_zmodem dstate zstate zm_handle (opts_but_osc52 o v2) a2 b1 with
+                  | inl x, inl y => osc_eq x y
+                  | inr (x, p), inr (y, q) => osc_eq x y /\ p = q
+                  | _, _ => False
+                  end).
+      { assert (Ta' : set_osc None a1 = set_osc None a2) by exact Ta.
+        unfold Filter.out_zmodem. destruct a1, a2; cbn in Ta'; inversion Ta'; subst; unf_sets; cbn -[osc_eq].
+        destruct (o_zmodem o); [|split; reflexivity].
+        destruct zmodem0 as [zz|]; [|split; reflexivity].
+        destruct (zm_handle zz b1) as [h z']. destruct h; [reflexivity|split; reflexivity]. }
+      destruct (out_zmodem dstate zstate zm_handle (opts_but_osc52 o v1) a1 b1) as [x|[x p]];
+        destruct (out_zmodem dstate zstate zm_handle (opts_but_osc52 o v2) a2 b1) as [y|[y q]];
+        try contradiction; [cbn; auto|].
+      destruct Z as (Z & Zp). subst q.
+      (* OSC52 scanner + trigger detector *)
+      unfold Filter.out_detect.
+      destruct (if o_osc52 (opts_but_osc52 o v1) then detect_osc52 (osc x) b1 else (osc x, [])) as [q1 cl1].
+      destruct (if o_osc52 (opts_but_osc52 o v2) then detect_osc52 (osc y) b1 else (osc y, [])) as [q2 cl2].
+      assert (D : det (set_osc q1 x) = det (set_osc q2 y)) by (unfold osc_eq in Z; destruct x, y; cbn in *; inversion Z; auto).
+      rewrite D. destruct (detect (det (set_osc q2 y)) b1) as [[b' t] d'].
+      destruct t as [t|].
+      + cbn [fst snd]. split.
+        * unfold osc_eq in *. destruct x, y; cbn in *; inversion Z; subst; reflexivity.
+        * rewrite !no_clip_app, !no_clip_clips. reflexivity.
+      + apply out_forward_osc.
+        * reflexivity.
+        * unfold osc_eq in *. destruct x, y; cbn in *; inversion Z; subst; reflexivity.
+        * rewrite !no_clip_app, !no_clip_clips. reflexivity.
+  Qed.
+
+  Lemma step_osc : forall o v1 v2 (a b : state) e, osc_eq a b ->
+    osc_eq (fst (step (opts_but_osc52 o v1) a e)) (fst (step (opts_but_osc52 o v2) b e)) /\
+    no_clip (snd (step (opts_but_osc52 o v1) a e)) = no_clip (snd (step (opts_but_osc52 o v2) b e)).
+  Proof.
+    intros o v1 v2 a b e E.
+    destruct e as [c|c| | |i|i x| |z]; cbn [Filter.step]; [apply out_step_osc; exact E|..].
+    all: destruct (osc_eq_set _ _ E) as [q Eq]; subst b; clear E.
+    all: destruct a as [transfer0 zmodem0 prompt0 prompts0 trace_on0 interrupting0 skip_cmd0 cur_cmd0 osc0 detect_on0
+                         dragging0 drag_has_dir0 drag_files0 held0 det0 drag_procs0 handlers0].
+    - unfold Filter.in_step, Filter.drag_verdict, add_drag, reset_drag, opts_but_osc52. unf_sets. cbn -[osc_eq no_clip].
+      destruct prompt0; [split; reflexivity|].
+      destruct transfer0; [destruct (is_stop_key c && prompts0); split; reflexivity|].
+      destruct (o_zmodem o), zmodem0, detect_on0, held0, (list_eqb c [drag_interrupt_byte]); cbn -[osc_eq no_clip].
+      all: repeat (bm; cbn -[osc_eq no_clip]); split; reflexivity.
+    - unfold opts_but_osc52; cbn -[osc_eq no_clip]. destruct (o_drag o); split; reflexivity.
+    - unfold Filter.hold_timer, Filter.drag_verdict, add_drag, reset_drag. unf_sets. cbn -[osc_eq no_clip].
+      destruct held0; [|split; reflexivity].
+      match goal with |- context [d_files (drag_detect ?l)] => destruct (d_files (drag_detect l)) as [[fs hd]|] end; cbn -[osc_eq no_clip].
+      all: repeat (bm; cbn -[osc_eq no_clip]); split; reflexivity.
+    - unfold Filter.drag_step, Filter.drag_command, reset_drag, opts_but_osc52. unf_sets. cbn -[osc_eq no_clip].
+      destruct (nth_error drag_procs0 i) as [[| |]|]; cbn -[osc_eq no_clip]; [destruct dragging0| |destruct dragging0|];
+        cbn -[osc_eq no_clip]; split; reflexivity.
+    - unfold Filter.handler_step, handler_exit, reset_drag. unf_sets. cbn -[osc_eq no_clip].
+      destruct (nth_error handlers0 i) as [ph|]; [|split; reflexivity].
+      destruct x, ph, transfer0, dragging0; cbn -[osc_eq no_clip]; split; reflexivity.
+    - cbn -[osc_eq no_clip]. split; reflexivity.
+    - cbn -[osc_eq no_clip]. destruct zmodem0; split; reflexivity.
+  Qed.
+
+  Theorem run_osc : forall es o v1 v2 (a b : state), osc_eq a b ->
+    osc_eq (fst (run (opts_but_osc52 o v1) a es)) (fst (run (opts_but_osc52 o v2) b es)) /\
+    no_clip (snd (run (opts_but_osc52 o v1) a es)) = no_clip (snd (run (opts_but_osc52 o v2) b es)).
+  Proof.
+    induction es as [|e es IH]; intros o v1 v2 a b E; cbn [Filter.run].
+    - cbn; auto.
+    - pose proof (step_osc o v1 v2 a b e E) as (S1 & S2).
+      destruct (step (opts_but_osc52 o v1) a e) as [a1 oa].
+      destruct (step (opts_but_osc52 o v2) b e) as [b1 ob]. cbn [fst snd] in S1, S2.
+      pose proof (IH o v1 v2 a1 b1 S1) as (R1 & R2).
+      destruct (run (opts_but_osc52 o v1) a1 es) as [a2 oa2].
+      destruct (run (opts_but_osc52 o v2) b1 es) as [b2 ob2]. cbn [fst snd] in *.
+      split; auto. rewrite !no_clip_app, S2, R2. reflexivity.
+  Qed.
+End OscInert.
